@@ -5,6 +5,7 @@ package core
 import (
 	"context"
 	"fmt"
+	"net/url"
 	"runtime"
 	"strings"
 	"sync"
@@ -649,11 +650,76 @@ func verifC39Conf(r *verifutil.Rand, plain bool) string {
 	return d + "," + fp + "," + tok
 }
 
+// change exactly one component of a configured destination: userinfo user / password, host spelling,
+// port, path, query, fragment, scheme, fingerprint, token
+func verifC39MutateComponent(r *verifutil.Rand, c string) string {
+	p := strings.Split(c, ",")
+	u, err := url.Parse(p[0])
+	if err != nil || u.Host == "" {
+		p[1] = r.Pick("-", "ab", "cd")
+		return strings.Join(p, ",")
+	}
+	user, pass := "", ""
+	if u.User != nil {
+		user = u.User.Username()
+		pass, _ = u.User.Password()
+	}
+	switch r.Intn(10) {
+	case 0: // user name
+		u.User = url.UserPassword(r.Pick("pub", "pub2", "admin"), pass)
+	case 1, 2: // password only
+		if user == "" {
+			user = "pub"
+		}
+		u.User = url.UserPassword(user, r.Pick("oldpass", "newpass", "s3cret"))
+	case 3: // host spelling (same machine)
+		host := u.Hostname()
+		nh := map[string]string{"127.0.0.1": "localhost", "localhost": "LOCALHOST", "LOCALHOST": "127.0.0.1"}[host]
+		if nh == "" {
+			nh = "localhost"
+		}
+		u.Host = nh + ":" + u.Port()
+	case 4: // port (both closed)
+		u.Host = u.Hostname() + ":" + map[string]string{"1": "2", "2": "1"}[u.Port()]
+		if strings.HasSuffix(u.Host, ":") {
+			u.Host += "1"
+		}
+	case 5:
+		u.Path = u.Path + r.Pick("2", "/x", "_")
+	case 6:
+		q := u.Query()
+		q.Set("k", r.Pick("1", "2", "3"))
+		u.RawQuery = q.Encode()
+	case 7:
+		u.Fragment = r.Pick("f", "g", "")
+	case 8:
+		u.Scheme = map[string]string{"rtmp": "rtmps", "rtmps": "rtmp", "rtsp": "rtsps", "rtsps": "rtsp",
+			"srt": "srt", "whip": "whips", "whips": "whip"}[u.Scheme]
+	default:
+		if r.Bool() {
+			p[1] = r.Pick("-", "ab", "cd")
+		} else {
+			p[2] = r.Pick("-", "tk", "tk2")
+		}
+	}
+	d := u.String()
+	if strings.ContainsAny(d, " ,|") {
+		return c
+	}
+	p[0] = d
+	return strings.Join(p, ",")
+}
+
 func verifC39Mutate(r *verifutil.Rand, cur []string, plain bool) []string {
 	out := append([]string{}, cur...)
 	k := 1 + r.Intn(2)
 	for ; k > 0; k-- {
-		switch r.Intn(10) {
+		switch r.Intn(13) {
+		case 10, 11, 12: // ONE component of one destination changes: any difference in the configured value counts
+			if len(out) > 0 {
+				i := r.Intn(len(out))
+				out[i] = verifC39MutateComponent(r, out[i])
+			}
 		case 0: // unchanged list
 		case 1, 2: // change one entry
 			if len(out) > 0 {
